@@ -373,7 +373,7 @@ def colC (E : Ext) : Conv → Val → Outcome (Option Err)
     | .ok x =>
       match guardCol (Facts.catches .enumLookupCollect) (pyLookup x (members.zipIdx)) with
       | .ok none => .ok none
-      | .ok (some _) => .ok (some (.wrongType (expected E (.enum name members inner) false) x none none))
+      | .ok (some _) => .ok (some (.wrongType (expected E (.enum name members inner) false) v none none))
       | .interrupt => .interrupt
       | .leak e => .leak e
   | .delegate sub inner, v =>
